@@ -37,6 +37,12 @@ def _reciprocal(val):
     return 1 / val
 
 
+def _exact(val):
+    # numpy compares a float32 with a python float in single precision, but
+    # both are saved as (and loaded from) doubles
+    return val.item() if isinstance(val, np.generic) else val
+
+
 _UFUNC_OPERATORS = {np.add: 'add', np.subtract: 'sub', np.multiply: 'mul',
                     np.true_divide: 'truediv', np.power: 'pow'}
 
@@ -221,10 +227,11 @@ class Uniform(Prior):
                 self.guess = upper_bound
             else:
                 self.guess = 0
-        elif not lower_bound <= guess <= upper_bound:  # also catches nan
+        elif not (_exact(lower_bound) <= _exact(guess)
+                  <= _exact(upper_bound)):  # also catches nan
             raise ParameterSpecificationError(
                     "Guess {} is not within bounds {} and {}.".format(
-                    guess, lower_bound, upper_bound))
+                    _exact(guess), _exact(lower_bound), _exact(upper_bound)))
         elif np.isinf(guess):  # (an infinite bound is within the bounds)
             raise ParameterSpecificationError(
                     "Guess {} is not finite.".format(guess))
@@ -341,7 +348,8 @@ class BoundedGaussian(Gaussian):
                 "Mean {}, lower bound {} and upper bound {} must be "
                 "real".format(mu, lower_bound, upper_bound))
         # (written so that nan bounds are rejected as well)
-        if not lower_bound <= mu <= upper_bound or lower_bound == upper_bound:
+        if (not _exact(lower_bound) <= _exact(mu) <= _exact(upper_bound)
+                or lower_bound == upper_bound):
             raise ParameterSpecificationError(
                 "Lower bound {} must be less than mean {}. Upper bound {} must"
                 " be greater than mean.")
